@@ -1,12 +1,11 @@
 CONSTANTS
-  TermsOf <- AbsTerms
-  ShortOf <- AbsShort
+  LabelTerms <- AbsTerms
   Variant = "nodisjoint"
   Labels <- L3
   MaxNodes = 3
   MaxDepth = 4
   Alphabet <- AlphaCore
   MaxToks = 1
-  Gen <- Atoms
+  Big = FALSE
 SPECIFICATION SpecTrees
 INVARIANT AndDistinctTags
